@@ -173,6 +173,26 @@ var specs = map[string]*CheckSpec{
 		Stub:   append([]string{"atp server -> scripted server (reactive transcript, canonical CBOR)"}, commonStub...),
 		Assume: []string{"premise: the server stream ends, errors or garbles; runs in which only the client's writes failed while the server stream stayed intact are excluded and counted", "a success result is legitimate iff a well-formed work-done for that run ID is present in the bytes actually delivered, as decided by the reference decoder"},
 	},
+	"C13": {
+		ID: "C13", Flavour: "schema", Race: true, Level: "exploration",
+		Quick: []Batch{
+			{Name: "c13.ops", Count: 6000},
+			{Name: "c13.global", Count: 160},
+			{Name: "c13.steps", Count: 2500},
+			{Name: "c13.session", Count: 300},
+		},
+		Thorough: []Batch{
+			{Name: "c13.ops", Count: 400000},
+			{Name: "c13.many", Count: 60000},
+			{Name: "c13.global", Count: 6000},
+			{Name: "c13.steps", Count: 150000},
+			{Name: "c13.session", Count: 40000},
+		},
+		Rule:   "each trial = 2-4 goroutines (2-16 in c13.many) issuing mixed Unserialize / Validate / Serialize / ValidateCompatibility calls on ONE schema that is brand new for the trial (freshly built from a generated recipe, freshly rebuilt from its own description, or the struct-mapped library scope with unit-bearing numbers and nested defaults), under one seeded schedule with a yield before every statement of the schema package, in a binary built with -race and a happens-before-neutral scheduler; c13.global trials run one per worker process so that the first use of the package-level unit definitions is what the goroutines race on; c13.steps / c13.session re-run the step-call and ATP session simulations under the race detector; oracles: every call returns what it returns in isolation on another fresh instance, zero race reports whose two stacks lie in the SDK, no panic; distinct = distinct schedule signature; non-trivial = at least one preemption",
+		Real:   []string{"schema package", "atp client and server (c13.session)", "Go race detector (ThreadSanitizer runtime)"},
+		Stub:   []string{"sync.Mutex/Once -> shim that gives the race detector the same happens-before edges as a real mutex", "scheduler hand-off is hidden from the race detector (runtime.RaceDisable around park/release)", "transport/clock as in C05 for c13.session"},
+		Assume: []string{"the race detector reports a given pair of stacks once per process; attribution to a trial uses the report counter before/after the trial", "trials contain no timers or sleeps except in c13.session"},
+	},
 	"C12": {
 		ID: "C12", Flavour: "atp", Level: "exploration",
 		Quick:    []Batch{{Name: "c12.history", Count: 40000}},
@@ -389,7 +409,7 @@ func runWorker(bin string, job Job, timeout time.Duration, race bool) workerResu
 	cmd := exec.Command(bin, "-test.run", "^TestWorker$", "-test.timeout", "0", "-test.count", "1")
 	cmd.Env = append(os.Environ(), "VERIF_JOB="+string(jb), "GOMAXPROCS=2")
 	if race {
-		cmd.Env = append(cmd.Env, "GORACE=halt_on_error=0 log_path="+job.Out+".race")
+		cmd.Env = append(cmd.Env, "GORACE=halt_on_error=0 log_path="+job.Out+".race", "VERIF_RACE_LOG="+job.Out+".race")
 	}
 	var stderr bytes.Buffer
 	cmd.Stderr = &stderr
@@ -541,7 +561,7 @@ func doCheck(id, tier string) int {
 			chunks = count/20 + 1
 		}
 		per := (count + chunks - 1) / chunks
-		if strings.Contains(b.Name, "crash") || b.Name == "c10.sweep" {
+		if strings.Contains(b.Name, "crash") || b.Name == "c10.sweep" || b.Name == "c13.global" {
 			per = 1 // one base execution (with all its fault points) per unit of work
 		}
 		for c := uint64(0); c*per < count; c++ {
@@ -561,6 +581,9 @@ func doCheck(id, tier string) int {
 	}
 	for i := range units {
 		units[i].job.Known = knownV
+		if spec.Race {
+			units[i].job.MaxViol = 1
+		}
 	}
 	a := newAgg()
 	var mu sync.Mutex
@@ -581,7 +604,10 @@ func doCheck(id, tier string) int {
 			for _, r := range recs {
 				a.add(r, id)
 			}
-			if res.err != nil {
+			complete := len(recs) > 0 && res.crashRun < 0 && !res.timedOut && strings.Contains(res.stderr, fmt.Sprintf("END %d", u.job.To-1))
+			if res.err != nil && !(spec.Race && complete) {
+				// (a race build's test binary exits non-zero once the detector has reported anything,
+				// although the worker ran to completion: that is not a crash)
 				crashes = append(crashes, res)
 			} else if rerr != nil {
 				infra = append(infra, rerr.Error())
